@@ -188,6 +188,24 @@ def ins_out_decoded(instr, operands, module):
     return [OPCODE.get(op, 0)]
 
 
+def accepted(e):
+    """would the compiler let this expression reach the folder / code generator?
+    The real Pass2 hooks on every node (they only look at the node), and no
+    node of UNKNOWN type (every statement that holds an expression rejects it;
+    the fold_levels suite checks that on whole programs)."""
+    from qbee.compiler import Pass2
+    try:
+        if e.type._type == E.BuiltinType.UNKNOWN:
+            return False
+        if isinstance(e, E.BinaryOp):
+            Pass2.process_binary_op_pre(None, e)
+        elif isinstance(e, E.UnaryOp):
+            Pass2.process_unary_op_pre(None, e)
+    except CompileError:
+        return False
+    return all(accepted(ch) for ch in e.children)
+
+
 def all_case(j):
     """everything about one constant expression, all from the real code:
     [type, fold, bound] + [cg, rt, lits] of the expression + rt of what fold() returned
@@ -201,7 +219,7 @@ def all_case(j):
     except BaseException as ex:  # noqa
         c = ['fold-exc', type(ex).__name__]
     d = _rt(build(j), True)[1]
-    return {'fold': a, 'rt': b, 'folded_rt': c, 'bound_rt': d}
+    return {'fold': a, 'rt': b, 'folded_rt': c, 'bound_rt': d, 'accepted': accepted(build(j))}
 
 
 # ---------------------------------------------------------------- programs
